@@ -37,13 +37,16 @@ type c19KV struct {
 }
 
 type c19Op struct {
-	K    string  `json:"k"`           // put | del | txn | delprefix | sleep | mute | unmute | cancel | restart | stop | start
+	K    string  `json:"k"`           // put | del | txn | fill | delprefix | sleep | mute | unmute | cancel | restart | stop | start
 	M    int     `json:"m,omitempty"` // stop/start: member whose etcd server is stopped/started (multi-member cluster)
 	Key  string  `json:"key,omitempty"`
 	Val  string  `json:"val,omitempty"`
 	Size int     `json:"size,omitempty"` // >256: the value is val[0] repeated size times (put, txn puts)
 	KVs  []c19KV `json:"kvs,omitempty"`
 	Ms   int     `json:"ms,omitempty"`
+	// fill: ONE transaction putting key+"%05d" := val for from <= i < from+n (big prefixes by index range)
+	From int `json:"from,omitempty"`
+	N    int `json:"n,omitempty"`
 }
 
 type c19Sub struct {
@@ -74,12 +77,17 @@ type c19Obs struct {
 	Bad  string      `json:"bad,omitempty"` // harness-level failure (never a pass)
 	// multi-member cluster: size of the endpoint list of the etcd client of the member the syncer lives on
 	Endpoints int `json:"endpoints,omitempty"`
+	// cluster.GetRaw / GetRawPrefix (op.go) returned something else than the harness' own single
+	// range request on that many read-backs
+	APIReadMismatch int `json:"api_read_mismatch,omitempty"`
 	// informational only (not compared): fault counters
 	Dropped int64 `json:"info_dropped_watch_responses"`
 	Cancels int64 `json:"info_injected_cancels"`
 }
 
-func c19IsWrite(k string) bool { return k == "put" || k == "del" || k == "txn" || k == "delprefix" }
+func c19IsWrite(k string) bool {
+	return k == "put" || k == "del" || k == "txn" || k == "delprefix" || k == "fill"
+}
 func c19IsFault(k string) bool {
 	return k == "mute" || k == "unmute" || k == "cancel" || k == "restart" || k == "stop" || k == "start"
 }
@@ -249,28 +257,105 @@ func c19Content(ns string, m map[string]*mvccpb.KeyValue) [][2]string {
 	return out
 }
 
-func (e *c19Env) read(ns string, prefix bool, target string) ([][2]string, error) {
+// c19Compress keeps traces and Coq terms small for big prefixes: inside a sorted content of more
+// than 64 entries, maximal runs of keys stem+"%05d" with consecutive indices and one value become
+// a single entry {"#range:<from>:<n>:<stem>", value}.  Deterministic, so equal contents compress equally.
+func c19Compress(c [][2]string) [][2]string {
+	if len(c) <= 64 {
+		return c
+	}
+	split := func(k string) (string, int, bool) {
+		if len(k) < 5 {
+			return "", 0, false
+		}
+		n := 0
+		for _, ch := range k[len(k)-5:] {
+			if ch < '0' || ch > '9' {
+				return "", 0, false
+			}
+			n = n*10 + int(ch-'0')
+		}
+		return k[:len(k)-5], n, true
+	}
+	out := make([][2]string, 0, 8)
+	for i := 0; i < len(c); {
+		stem, from, ok := split(c[i][0])
+		j := i + 1
+		if ok {
+			for j < len(c) {
+				st, idx, ok2 := split(c[j][0])
+				if !ok2 || st != stem || idx != from+(j-i) || c[j][1] != c[i][1] {
+					break
+				}
+				j++
+			}
+		}
+		if j-i >= 3 {
+			out = append(out, [2]string{fmt.Sprintf("#range:%d:%d:%s", from, j-i, stem), c[i][1]})
+		} else {
+			out = append(out, c[i:j]...)
+		}
+		i = j
+	}
+	return out
+}
+
+// read: the watched content as the store has it now - the harness' own single linearizable
+// range request (independent of op.go); the result of cluster.GetRaw / GetRawPrefix for the same
+// target is compared with it (mismatches are counted, they break the correspondence)
+func (e *c19Env) read(ns string, prefix bool, target string, mismatches *int) ([][2]string, error) {
 	var res [][2]string
 	err := c19Retry(func() error {
+		client, err := e.w.getClient()
+		if err != nil {
+			return err
+		}
+		ctx, cancel := e.w.requestContext()
+		defer cancel()
+		var resp *clientv3.GetResponse
+		if prefix {
+			resp, err = client.Get(ctx, ns+target, clientv3.WithPrefix())
+		} else {
+			resp, err = client.Get(ctx, ns+target)
+		}
+		if err != nil {
+			return err
+		}
+		res = make([][2]string, 0, len(resp.Kvs))
+		for _, kv := range resp.Kvs {
+			res = append(res, [2]string{c19Strip(ns, string(kv.Key)), c19Val(string(kv.Value))})
+		}
+		sort.Slice(res, func(i, j int) bool { return res[i][0] < res[j][0] })
+		return nil
+	})
+	if err != nil {
+		return res, err
+	}
+	var api [][2]string
+	apiErr := c19Retry(func() error {
 		if prefix {
 			m, err := e.w.GetRawPrefix(ns + target)
 			if err != nil {
 				return err
 			}
-			res = c19Content(ns, m)
+			api = c19Content(ns, m)
 			return nil
 		}
 		kv, err := e.w.GetRaw(ns + target)
 		if err != nil {
 			return err
 		}
-		res = [][2]string{}
+		api = [][2]string{}
 		if kv != nil {
-			res = append(res, [2]string{c19Strip(ns, string(kv.Key)), c19Val(string(kv.Value))})
+			api = append(api, [2]string{c19Strip(ns, string(kv.Key)), c19Val(string(kv.Value))})
 		}
 		return nil
 	})
-	return res, err
+	// (the harness is the only writer and does not write between the two reads)
+	if apiErr != nil || !c19Equal(api, res) {
+		*mismatches++
+	}
+	return c19Compress(res), nil
 }
 
 func c19Equal(a, b [][2]string) bool {
@@ -339,7 +424,7 @@ func c19Subscribe(s Syncer, ns string, sub c19Sub, historyDone <-chan struct{}) 
 				if v != nil {
 					m = append(m, [2]string{sub.Target, c19Val(*v)})
 				}
-				rec.add(m)
+				rec.add(c19Compress(m))
 				pace()
 			}
 		}()
@@ -356,7 +441,7 @@ func c19Subscribe(s Syncer, ns string, sub c19Sub, historyDone <-chan struct{}) 
 				if kv != nil {
 					m = append(m, [2]string{c19Strip(ns, string(kv.Key)), c19Val(string(kv.Value))})
 				}
-				rec.add(m)
+				rec.add(c19Compress(m))
 				pace()
 			}
 		}()
@@ -374,7 +459,7 @@ func c19Subscribe(s Syncer, ns string, sub c19Sub, historyDone <-chan struct{}) 
 					m = append(m, [2]string{c19Strip(ns, k), c19Val(v)})
 				}
 				sort.Slice(m, func(i, j int) bool { return m[i][0] < m[j][0] })
-				rec.add(m)
+				rec.add(c19Compress(m))
 				pace()
 			}
 		}()
@@ -387,7 +472,7 @@ func c19Subscribe(s Syncer, ns string, sub c19Sub, historyDone <-chan struct{}) 
 			defer close(rec.done)
 			wait()
 			for kvs := range ch {
-				rec.add(c19Content(ns, kvs))
+				rec.add(c19Compress(c19Content(ns, kvs)))
 				pace()
 			}
 		}()
@@ -503,7 +588,7 @@ func (e *c19Env) run(in c19In) (obs c19Obs) {
 			if at != pos || recs[i] != nil {
 				continue
 			}
-			s0, err := e.read(ns, isPrefix(sub.Kind), sub.Target)
+			s0, err := e.read(ns, isPrefix(sub.Kind), sub.Target, &obs.APIReadMismatch)
 			if err != nil {
 				bad("read s0: %v", err)
 				continue
@@ -532,7 +617,7 @@ func (e *c19Env) run(in c19In) (obs c19Obs) {
 			st, ok := cache[key]
 			if !ok {
 				var err error
-				st, err = e.read(ns, isPrefix(sub.Kind), sub.Target)
+				st, err = e.read(ns, isPrefix(sub.Kind), sub.Target, &obs.APIReadMismatch)
 				if err != nil {
 					bad("read back: %v", err)
 					continue
@@ -562,6 +647,17 @@ func (e *c19Env) run(in c19In) (obs c19Obs) {
 					v := c19Fill(*kv.Val, op.Size)
 					kvs[ns+kv.Key] = &v
 				}
+			}
+			err = c19Retry(func() error { return e.txn(kvs) })
+		case "fill":
+			if op.N < 0 || op.N > 2000 || op.From < 0 || op.From+op.N > 99999 {
+				bad("fill out of range")
+				break
+			}
+			kvs := map[string]*string{}
+			for i := op.From; i < op.From+op.N; i++ {
+				v := op.Val
+				kvs[fmt.Sprintf("%s%s%05d", ns, op.Key, i)] = &v
 			}
 			err = c19Retry(func() error { return e.txn(kvs) })
 		case "sleep":
@@ -1053,6 +1149,41 @@ func c19GenSize(r *vfRand, limit, nkeys, size int) c19In {
 	return in
 }
 
+// key-count dimension: a prefix holding `total` keys (written by index ranges, a few hundred
+// per transaction), a pause so that the whole content is delivered and compared, then changes
+// of the LAST keys (far beyond any page a paginated read might stop at), of a key in the middle
+// and of one of the first keys, each followed by convergence
+func c19GenBig(r *vfRand, total int) c19In {
+	in := c19In{PullMs: 200}
+	stem := "b/"
+	key := func(i int) string { return fmt.Sprintf("%s%05d", stem, i) }
+	in.Ops = append(in.Ops, c19Op{K: "put", Key: stem + "zz", Val: "1"})
+	batch := r.PickInt(300, 400, 450)
+	for from := 0; from < total; from += batch {
+		n := batch
+		if from+n > total {
+			n = total - from
+		}
+		in.Ops = append(in.Ops, c19Op{K: "fill", Key: stem, From: from, N: n, Val: "v"})
+	}
+	afterFill := len(in.Ops)
+	in.Ops = append(in.Ops,
+		c19Op{K: "sleep", Ms: in.PullMs + 100},
+		c19Op{K: "put", Key: key(total - 1), Val: "w"},
+		c19Op{K: "sleep", Ms: in.PullMs + 100},
+		c19Op{K: "del", Key: key(total - 2)},
+		c19Op{K: "put", Key: key(total / 2), Val: r.PickStr("w", "", "2")},
+		c19Op{K: "sleep", Ms: r.PickInt(5, in.PullMs+100)},
+		c19Op{K: "put", Key: key(r.Intn(8)), Val: "w"},
+		c19Op{K: "fill", Key: stem, From: total - 12, N: 10, Val: "y"})
+	in.Subs = []c19Sub{
+		{Kind: "prefix", Target: stem, At: 0, Consumer: "fast"},
+		{Kind: "rawprefix", Target: stem, At: afterFill, Consumer: r.PickStr("fast", "slow"), DelayMs: 20}, // first pull sees everything
+		{Kind: r.PickStr("sync", "raw"), Target: key(total - 1), At: 0, Consumer: "fast"},
+	}
+	return in
+}
+
 func TestVerifC19(t *testing.T) {
 	out := vfOpen(t)
 	defer out.Close()
@@ -1107,6 +1238,18 @@ func TestVerifC19(t *testing.T) {
 		}
 		for i, sh := range shapes {
 			jobs = append(jobs, &job{id: fmt.Sprintf("gen-size-%d", i), src: "gen", in: c19GenSize(root.Fork(5000+i), sh[0], sh[1], sh[2])})
+		}
+	}
+	if !vfReplayOnly() {
+		// big prefixes: 513 and 1024 keys, and one count above 1024 (thorough: all of them)
+		root := vfNewRand(vfSeed())
+		above := []int{1025, 1100, 1537, 2049}
+		totals := []int{513, 1024, above[root.Fork(6000).Intn(len(above))]}
+		if vfTier() == "thorough" {
+			totals = append([]int{513, 1024, 512, 1536}, above...)
+		}
+		for i, total := range totals {
+			jobs = append(jobs, &job{id: fmt.Sprintf("gen-big-%d", total), src: "gen", in: c19GenBig(root.Fork(6001+i), total)})
 		}
 	}
 	for _, j := range jobs {
